@@ -1,5 +1,5 @@
 //@ unit stack
-//@ serves C18 C04 C09 C02
+//@ serves C18 C04 C08 C09 C02
 //@ include prelude/header.rs
 verus! {
 //@ include prelude/error.rs
